@@ -19,6 +19,11 @@ class AbstractDenseTimeOnlineInterpreter(AbstractOnlineInterpreter, DenseTimeInt
         self.updateFinalVisitor = DenseTimeOnlineUpdateFinalVisitor()
         return
 
+    def reset(self):
+        # the dense-time operations only set their state up when they are constructed: start again from fresh ones
+        self.set_ast(self.ast)
+        return
+
     #input format
     #a = [[0, 1.3], [0.7, 3], [1.3, 0.1], [2.1, -2.2]]
     #b = [[0, 2.5], [0.7, 4], [1.3, -1.2], [2.1, 1.7]]
